@@ -240,12 +240,13 @@ SCENARIOS = dict(
     C01=dict(quick=['gauss', 'two_split', 'wrap_net', 'half', 'g3_pool_s', 'plateau', 'nlb',
                     'funnel_net', 'ring_net', 'ring_split_net:resume', 'const:resume',
                     'wrap_pool_s:resume', 'g5:resume', 'net2_tanh:resume', 'cross_split:resume',
-                    'empty:resume', 'gauss_stale:resume', 'empty2:resume'],
+                    'empty:resume', 'gauss_stale:resume', 'empty2:resume', 'faint_trim:nshell'],
              thorough=['gauss', 'gauss_net', 'two', 'ring_net', 'half', 'plateau', 'wrap',
                        'wrap_net', 'g3_pool_s', 'two_pool_s', 'b7_update', 'blob_two_obj', 'b1',
                        'funnel_net', 'funnel', 'nlb', 'nlb_ring', 'empty', 'two_split', 'ring_split_net',
                        'const', 'nuisance3_net', 'wrap_pool_s', 'gauss:resume3', 'half:resume3',
-                       'plateau:resume3', 'const:resume3', 'g5', 'net2_tanh', 'empty2:resume']),
+                       'plateau:resume3', 'const:resume3', 'g5', 'net2_tanh', 'empty2:resume',
+                       'faint_trim:nshell']),
     C02=dict(quick=['gauss_d', 'half', 'gauss_t', 'wrap_net', 'wrap_net:slices',
                     'two_split:resume/0/2+resume/1/2+slices',
                     'const:resume',
@@ -286,13 +287,13 @@ SCENARIOS = dict(
                        'two', 'nofile', 'blob_two_obj', 'nuisance', 'nuisance3_net', 'half', 'g3_pool_s',
                        'wrap_pool_s']),
     C12=dict(quick=['gauss_t', 'gauss_d', 'wrap_net', 'blob_two_obj', 'empty_d:nshell',
-                    'enlarge25:nshell', 'empty2_d:nshell'],
+                    'enlarge25:nshell', 'empty2_d:nshell', 'ring_pend_d:nshell'],
              thorough=['gauss', 'gauss_t', 'gauss_d', 'b7_update',
                        'b1:toggle-resume/0/2+toggle-resume/1/2+nshell', 'two', 'half', 'wrap_net',
                        'blob_float', 'blob_two_obj',
                        'gauss_net:toggle-resume/0/2+toggle-resume/1/2+nshell', 'empty', 'empty_d',
                        'enlarge25:toggle-resume/0/2+toggle-resume/1/2+nshell',
-                       'empty2_d:nshell', 'empty2:nshell']),
+                       'empty2_d:nshell', 'empty2:nshell', 'ring_pend_d']),
 )
 
 LEVEL = 'model_checking'
